@@ -9,6 +9,7 @@
 #include <time.h>
 #include <unistd.h>
 #include <ucontext.h>
+#include <setjmp.h>
 #include <sys/mman.h>
 #include <sys/uio.h>
 #include <arpa/inet.h>
@@ -463,6 +464,7 @@ int vw_select(int nfds, fd_set *r, fd_set *w, fd_set *x, struct timeval *tv)
 {
 	vw_proc *pr = curproc("select");
 	int p = W.cur;
+	if (W.direct) vw_fatal("select() in direct mode");
 	(void)w; (void)x;
 	pr->rfds = r; pr->nfds = nfds;
 	pr->deadline = tv ? W.now + (int64_t)tv->tv_sec * 1000000 + tv->tv_usec : VW_NEVER;
@@ -497,10 +499,22 @@ unsigned vw_sleep(unsigned s)
 	return 0;
 }
 
+void vw_direct_begin(int p, void *jmpbuf)
+{
+	if (W.cur != -1) vw_fatal("vw_direct_begin while a process runs");
+	W.cur = p; W.direct = 1; W.direct_jmp = jmpbuf;
+}
+void vw_direct_end(void) { W.cur = -1; W.direct = 0; W.direct_jmp = NULL; }
+
 void vw_exit(int code)
 {
 	vw_proc *pr = curproc("exit");
 	int p = W.cur;
+	if (W.direct) {
+		W.direct_exit_code = code;
+		if (!W.direct_jmp) vw_fatal("exit(%d) in direct mode without jmp_buf", code);
+		longjmp(*(jmp_buf *)W.direct_jmp, 1);
+	}
 	pr->state = VW_P_EXITED;
 	pr->exit_code = code;
 	for (;;) switch_to_sched(p, 0);
